@@ -88,6 +88,13 @@ class BaseKey(t.Generic[NativePrivateKey, NativePublicKey], metaclass=ABCMeta):
             raw_value: NativePrivateKey | NativePublicKey,
             original_value: t.Any,
             parameters: t.Optional[KeyParameters] = None):
+        if parameters is not None:
+            # parameters describe the key ("kid", "use", "alg", ...): the members that
+            # hold the key itself come from the key, a second set of them would be
+            # exported and thumbprinted while the key computes with the first
+            for name in parameters:
+                if name in self.value_registry or (name == "kty" and parameters[name] != self.key_type):
+                    raise ValueError(f'"{name}" can not be given as a parameter')
         self._raw_value = raw_value
         self.original_value = original_value
         # the key keeps copies: the dicts (and the lists in them, "key_ops", "x5c")
@@ -259,6 +266,8 @@ class BaseKey(t.Generic[NativePrivateKey, NativePublicKey], metaclass=ABCMeta):
             parameters: t.Optional[KeyParameters] = None,
             password: t.Optional[t.Any] = None) -> GenericKey:
         if isinstance(value, dict):
+            if value.get("kty", cls.key_type) != cls.key_type:
+                raise ValueError(f'Invalid key type: "kty" is not "{cls.key_type}"')
             cls.validate_dict_key(value)
             raw_key = cls.binding.import_from_dict(value)
             return cls(raw_key, value, parameters)
